@@ -12,12 +12,26 @@ import Dhcp.V6.Build
     v6req <advertise> xid=<hex> [mods=…]  NewRequestFromAdvertise (xid = the id NewMessage drew)
     v6reply <msg> [mods=…]                NewReplyFromMessage
     v6mac <msg>                           ExtractMAC
+    v6mods <msg> mods=<list>              the modifiers applied in order to a *Message or *RelayMessage
+    v6update <msg> <opt>                  (*Message / *RelayMessage).UpdateOption
+    v6add <msg> <opt>                     (*Message / *RelayMessage).AddOption
+    v6del <msg> <code>                    m.Options.Del(code)
   optional tokens: `wire=1` the first message goes through ToBytes/FromBytes
   before the call; `owire=1` the resulting message goes through them after it.
   `badtype`: the (decoded) argument does not have the Go parameter's static type.
 -/
 namespace Dhcp.Driver
 open Dhcp Dhcp.V6
+
+def ofSxIAAddr (s : Sx) : Option IAAddr :=
+  match ofSxOpt s with
+  | some (.iaaddr ip p v os) => some ⟨ip, p, v, os⟩
+  | _ => none
+
+def ofSxIAPfx (s : Sx) : Option IAPfx :=
+  match ofSxOpt s with
+  | some (.iaprefix p v pfx os) => some ⟨p, v, pfx, os⟩
+  | _ => none
 
 def ofSxMod : Sx → Option Mod6
   | .app "opt" [o] => do pure (.option (← ofSxOpt o))
@@ -33,6 +47,11 @@ def ofSxMod : Sx → Option Mod6
   | .app "irt" [d] => do pure (.infoRefresh (← d.int))
   | .app "lla" [h, a] => do pure (.clientLLA (← h.nat) (← a.bytes))
   | .app "4o6" [.list ips] => do pure (.dhcp4o6Server (← ips.mapM Sx.optBytes))
+  | .app "fqdn" [f, n] => do pure (.fqdn (u8 (← f.nat)) (← n.bytes))
+  | .app "dsl" [.list ns] => do pure (.domainSearchList (← ns.mapM Sx.bytes))
+  | .app "ianaaddrs" [.list as] => do pure (.ianaAddrs (← as.mapM ofSxIAAddr))
+  | .app "iata" [i, .list as] => do pure (.iata (← i.bytes) (← as.mapM ofSxIAAddr))
+  | .app "iapd" [i, .list ps] => do pure (.iapd (← i.bytes) (← ps.mapM ofSxIAPfx))
   | _ => none
 
 def modsOf (toks : List String) : Option (List Mod6) :=
@@ -95,6 +114,18 @@ def stepV6Build (op : String) (args : List String) : Option String :=
     match ← inp m with
     | .ok (.relay ..) => some "badtype"
     | r => pure (out (r.bind fun m => newReplyFromMessage m mods))
+  | "v6mods", [m] => do
+    let mods ← modsOf args
+    pure (out ((← inp m).bind fun m => applyMods m mods))
+  | "v6update", [m, o] => do
+    let o ← ofSxOpt (← Sx.parse o)
+    pure (out ((← inp m).map fun m => m.updateOption o))
+  | "v6add", [m, o] => do
+    let o ← ofSxOpt (← Sx.parse o)
+    pure (out ((← inp m).map fun m => m.addOption o))
+  | "v6del", [m, c] => do
+    let c ← c.toNat?
+    pure (out ((← inp m).map fun m => m.delOption c))
   | "v6mac", [m] => do
     pure (match (← inp m).bind extractMAC with
       | .ok b => "ok " ++ hex b
